@@ -12,6 +12,24 @@ from pathlib import Path
 
 import common
 
+def tlc(module, cfg, *, check=True, **kw):
+    """common.tlc, repeated when the TLC process was terminated from outside
+    (other checks running on the same machine clean up with `pkill -f tlc2.TLC`)."""
+    import sys
+    import time
+
+    for attempt in range(4):
+        r = common.tlc(module, cfg, check=False, **kw)
+        if r.rc in (143, 137, -15, -9, 130) and not r.ok and not r.invariant_violated:
+            time.sleep(1 + attempt)
+            continue
+        break
+    if check and not r.ok:
+        sys.stderr.write(r.out[-6000:])
+        raise common.TLCError(f"TLC did not complete cleanly on {module}/{cfg} (rc={r.rc})")
+    return r
+
+
 HUGE = "9" * 400                      # a 400-digit integer literal
 TINY = "0." + "0" * 320 + "1"         # 1e-321 (a denormal double)
 
